@@ -8,8 +8,9 @@ A *proposal spec* is a dict:
     {"kind": "bern",   "par": "logits"|"probs", "theta": [...], "const": {i: 0.0|1.0}}
         independent binary variables; support = all bit tuples (b_0, ..., b_{n-1});
         variables listed in "const" have a constant probability 0 or 1 (no parameter influence)
-    {"kind": "cat",    "par": "logits"|"probs", "theta": [...]}
-        one categorical variable; support = class indices 0..V-1; probs are normalised by their sum
+    {"kind": "cat",    "par": "logits"|"probs", "theta": [...], "masked": [i, ...]}
+        one categorical variable; support = class indices 0..V-1; probs are normalised by their sum;
+        classes listed in "masked" have logit -inf / probability 0 (mass 0, no parameter influence)
     {"kind": "srswor", "T": total, "L": given, "out": out_size}
         uniform over bit tuples of length out with exactly L ones, all inside the first T positions
     {"kind": "cbern",  "T":, "L":, "out":, "theta": [...]}
@@ -32,7 +33,7 @@ def sigmoid(x):
 
 def softmax(xs):
     m = max(xs)
-    es = [math.exp(x - m) for x in xs]
+    es = [0.0 if x == -math.inf else math.exp(x - m) for x in xs]
     t = sum(es)
     return [e / t for e in es]
 
@@ -104,11 +105,26 @@ def table(spec):
             dlog.append([d1[i] if b[i] else d0[i] for i in range(n)])
         return support, mass, dlog
     if kind == "cat":
-        theta = spec["theta"]
+        masked = set(int(i) for i in (spec.get("masked") or []))
+        # masked classes: logit exactly -inf (par == "logits") / probability exactly 0 (par == "probs");
+        # they stay in the enumerated support with mass 0 and have no parameter influence
+        theta = [(-math.inf if spec["par"] == "logits" else 0.0) if i in masked else t
+                 for i, t in enumerate(spec["theta"])]
         V = len(theta)
+        if masked and spec["par"] == "probs":
+            tot = sum(theta)
+            p = [t / tot for t in theta]
+            # live class k: d log(theta_k / tot) / d theta_j = [j == k] / theta_k - 1 / tot, also for a masked j
+            # (normalisation); the masked rows have mass 0 and are never used (the derivative of their own
+            # mass, +1/tot, is a boundary term no expectation of the form sum P g dlog can carry - callers
+            # must not compare the masked coordinates of a gradient)
+            dlog = [[0.0 if k in masked else (1.0 / theta[k] if j == k else 0.0) - 1.0 / tot
+                     for j in range(V)] for k in range(V)]
+            return list(range(V)), p, dlog
         if spec["par"] == "logits":
             p = softmax(theta)
-            dlog = [[(1.0 if j == k else 0.0) - p[j] for j in range(V)] for k in range(V)]
+            dlog = [[0.0 if (j in masked or k in masked) else (1.0 if j == k else 0.0) - p[j] for j in range(V)]
+                    for k in range(V)]
         else:
             tot = sum(theta)
             p = [t / tot for t in theta]
